@@ -280,3 +280,7 @@ def tebd_query_between_computes(inp):
             bad.append({'history': [('query site %d' % k[1]) if isinstance(k, tuple) else 'compute(%d)' % k for k in seq],
                         'max_state_deviation_from_single_compute': dev, 'max_norm_deviation': dn})
     return {'violates': bool(bad), 'detail': bad}
+
+
+# thorough tier (bounded native sweeps): (function, inputs, obligation of the open finding it reproduces or None)
+THOROUGH = [('tempo_exc_atomic', {}, None), ('tempo_split', {}, None), ('pt_twice', {}, None), ('pt_exc_atomic', {}, None), ('gibbs_twice', {}, None), ('tebd_split', {}, None), ('tebd_query_between_computes', {}, None), ('tebd_restart', {}, None), ('tebd_restart', {'obligation': 'tebd/restart[pre-control-at-restart-step]'}, 'tebd/restart[pre-control-at-restart-step]'), ('mfb_exc_atomic', {}, 'mfb/exc-atomic[field-eom-second-evaluation]')]
